@@ -337,6 +337,69 @@ def leg_correspondence(pid, work, tier, seed, log, search=False, replay=None):
     return res, cases, fails, passes, stats, samples, nontriv
 
 
+# ---------------------------------------------------------------- leg "dump"
+def file_hash(p):
+    try:
+        return hashlib.sha256(open(p, "rb").read()).hexdigest()
+    except OSError:
+        return "-"
+
+
+def leg_dump(pid, work, tier, seed, log):
+    """object-dump correspondence: Go IR objects of the corpus are written as GoEval values together with
+    what the implementation's LLString / Ident / String / Type return; the regenerated bodies of
+    Gen/Printers.v are run on them inside Coq (vm_compute).  The result is cached per state of /repo,
+    Gen/Printers.v, GoEval.v and the harness."""
+    key = hashlib.sha256((repo_digest() + file_hash(os.path.join(COQ, "theories/Gen/Printers.v")) +
+                          file_hash(os.path.join(COQ, "theories/Model/GoEval.v")) +
+                          file_hash(os.path.join(VERIF, "harness/dump.go"))).encode()).hexdigest()[:24]
+    d = os.path.join(VERIF, ".work", "dump")
+    os.makedirs(d, exist_ok=True)
+    cache = os.path.join(d, key + ".json")
+    if os.path.exists(cache):
+        r = json.load(open(cache))
+        r["cached"] = True
+        return r
+    t0 = time.time()
+    # GoEval and the printers must be compiled and consistent
+    rc, out, _ = run(["timeout", "3000", "make", "-j16", "theories/Model/GoEval.vo"], cwd=COQ, timeout=3100)
+    log.write(out)
+    cases = os.path.join(d, "cases_%s.v" % key)
+    rc1, out1, _ = run([os.path.join(BIN, "harness"), "DUMP", "/verif/corpus/modules,/repo/asm/testdata", cases], env=GOENV, timeout=600)
+    log.write(out1)
+    res = {"name": "dump", "leg": "C", "ok": False, "what": "object-dump correspondence", "obligations": 1, "discharged": 0}
+    if rc != 0 or rc1 != 0:
+        res["what"] = "object dump could not be produced: " + (out + out1)[-400:]
+        return res
+    rc2, out2, dt = run(["timeout", "1500", "coqc", "-Q", os.path.join(COQ, "theories"), "LLIR", cases], cwd=d, timeout=1600)
+    log.write(out2)
+    m = re.search(r"summary\s*=\s*\((\d+),\s*(\d+),\s*(\d+)\)", out2)
+    for ext in (".vo", ".vok", ".vos", ".glob"):
+        try:
+            os.remove(cases[:-2] + ext)
+        except OSError:
+            pass
+    try:
+        os.remove(os.path.join(d, ".cases_%s.aux" % key))
+    except OSError:
+        pass
+    if rc2 != 0 or not m:
+        res["what"] = "the regenerated bodies could not be run on the dumped objects: " + out2[-600:]
+        return res
+    n, nbad, ndiff = int(m.group(1)), int(m.group(2)), int(m.group(3))
+    dm = re.search(r"diffs\s*=\s*(.*?)\n\s*:\s*list", out2, re.S)
+    res.update({"objects": n, "evaluator_gaps": nbad - ndiff, "differences": ndiff, "wall_s": round(time.time() - t0, 1),
+                "ok": ndiff == 0, "discharged": 1 if ndiff == 0 else 0,
+                "what": "regenerated printers / Type() methods run in Coq differ from the implementation on %d of %d dumped objects" % (ndiff, n),
+                "detail": (dm.group(1)[:1500] if dm and ndiff else "")})
+    os.remove(cases)
+    json.dump(res, open(cache, "w"))
+    return res
+
+
+EXTRA_LEGS = {"dump": leg_dump}
+
+
 # ---------------------------------------------------------------- known findings
 def known_findings(pid):
     known, fixed = {}, []
@@ -436,8 +499,9 @@ def main():
             broken.append(("C", "the model driver does not build", errD))
         extra = prop.get("extra_legs")
         extra_res = []
-        if extra and T["ok"]:
-            for fn in extra:
+        if extra and T["ok"] and okH:
+            for name in extra:
+                fn = EXTRA_LEGS[name]
                 r = fn(pid, work, tier, seed, log)
                 extra_res.append(r)
                 legs[r["name"]] = r
@@ -515,7 +579,8 @@ def main():
             "theorems": assum,
             "open_statements": prop.get("open_statements", []),
             "legs": legs,
-            "traces_validated_against_impl": C.get("agreed", 0) if isinstance(C, dict) else 0,
+            "traces_validated_against_impl": (C.get("agreed", 0) if isinstance(C, dict) else 0) +
+                                             sum(max(0, r.get("objects", 0) - r.get("differences", 0)) for r in extra_res),
             "evaluations": len(cases) + sum(passes.values()) + len(fails),
             "distinct_nontrivial": nontriv,
             "rule": prop.get("rule", ""),
